@@ -51,10 +51,21 @@ fn main() {
             break;
         }
         let p = gen_cprog(&mut rng);
+        for st in &p.streams {
+            if st.seq {
+                rep.add("aliased_sequence_consumers", 1);
+                if p.streams.iter().any(|q| q.name == st.src && q.ctx != st.ctx) {
+                    rep.add("aliased_sequence_consumers_in_another_context", 1);
+                }
+            }
+            if st.implicit && st.emit_to.map_or(false, |t| t != st.ctx) {
+                rep.add("producers_relying_on_the_routing_table", 1);
+            }
+        }
         let n = 30 + rng.below(args.pick(120, 270));
         let events = gen_events(&mut rng, n);
         let cfg = RunCfg {
-            capacity: *rng.pick(&[1usize, 1, 2, 4, 16, 1000]),
+            capacity: *rng.pick(&[1usize, 1, 2, 4, 16, 1000, 1000]),
             perturb_permille: *rng.pick(&[0u64, 50, 200, 500]),
             perturb_max_us: *rng.pick(&[1u64, 20, 200]),
             seed: rng.next_u64(),
@@ -141,13 +152,46 @@ fn main() {
                 }
             }
         }
+        // ---- (i') every output of a stream whose consumer lives in another context is forwarded there ----
+        if out.quiesced {
+            for st in &p.streams {
+                let Some(prod) = p.streams.iter().find(|q| q.name == st.src && q.ctx != st.ctx) else { continue };
+                let produced: Vec<i64> = out.outputs.iter().filter(|e| &*e.event_type == prod.name.as_str()).filter_map(|e| e.get_int("uid")).collect();
+                let key = (format!("c{}", prod.ctx), format!("c{}", st.ctx), prod.name.clone());
+                let forwarded: std::collections::BTreeSet<i64> = fwd.get(&key).map(|v| v.iter().map(|(u, _)| *u).collect()).unwrap_or_default();
+                let never: Vec<i64> = produced.iter().filter(|u| !forwarded.contains(u)).copied().collect();
+                rep.add("producer_outputs_checked_for_forwarding", produced.len() as u64);
+                if !never.is_empty() {
+                    rep.violation(
+                        &format!("cross-context/not-forwarded/{}-consumer/{}-emit", if st.seq { "aliased-sequence" } else if st.window.is_some() { "window" } else { "pass-through" }, if prod.implicit { "plain" } else { "targeted" }),
+                        "a stream's output events were never forwarded to the context in which its consumer runs",
+                        wit(json!({"producer": prod.name, "consumer": st.name, "from": key.0, "to": key.1, "produced": produced.len(), "forwarded": forwarded.len(), "first_not_forwarded_uids": never.iter().take(10).collect::<Vec<_>>()})),
+                    );
+                }
+            }
+        }
         cross_events += run_cross;
         full_queue_episodes += run_full;
         if run_cross >= 20 && run_full >= 1 {
             rep.nontrivial(&order_hash);
         }
         // ---- (ii) output clause vs the plain engine (all generated programs are single-producer) ----
-        let lost_any = fwd.iter().any(|((f, t, ty), sent)| f != t && sent.iter().any(|(u, _)| !rcv.get(&(t.clone(), ty.clone())).map(|g| g.contains(u)).unwrap_or(false)));
+        // streams whose input edge recorded a loss, and everything downstream of them
+        let mut lossy: std::collections::BTreeSet<String> = Default::default();
+        for ((f, t, ty), sent) in &fwd {
+            if f != t && sent.iter().any(|(u, _)| !rcv.get(&(t.clone(), ty.clone())).map(|g| g.contains(u)).unwrap_or(false)) {
+                for st in p.streams.iter().filter(|st| &st.src == ty) {
+                    lossy.insert(st.name.clone());
+                }
+            }
+        }
+        loop {
+            let more: Vec<String> = p.streams.iter().filter(|st| lossy.contains(&st.src) && !lossy.contains(&st.name)).map(|st| st.name.clone()).collect();
+            if more.is_empty() {
+                break;
+            }
+            lossy.extend(more);
+        }
         match run_plain(&p, &events) {
             Ok(plain) => {
                 let mut a: BTreeMap<String, Vec<String>> = BTreeMap::new();
@@ -159,13 +203,17 @@ fn main() {
                     b.entry(e.event_type.to_string()).or_default().push(canon(e));
                 }
                 rep.add("outputs_compared", out.outputs.len() as u64);
-                if a != b {
-                    if lost_any {
-                        rep.add("output_differences_explained_by_recorded_loss", 1);
-                    } else if !out.quiesced {
+                // a difference is explained by a recorded loss only for streams downstream of the lossy edge
+                let differing: Vec<String> = a.keys().chain(b.keys()).filter(|k| a.get(*k) != b.get(*k)).cloned().collect::<std::collections::BTreeSet<_>>().into_iter().collect();
+                let unexplained: Vec<String> = differing.iter().filter(|k| !lossy.contains(*k)).cloned().collect();
+                if !differing.is_empty() && unexplained.is_empty() {
+                    rep.add("output_differences_explained_by_recorded_loss", 1);
+                }
+                if !unexplained.is_empty() {
+                    if !out.quiesced {
                         rep.inconclusive("outputs differ but the run did not quiesce");
                     } else {
-                        let bad = a.keys().chain(b.keys()).find(|k| a.get(*k) != b.get(*k)).cloned().unwrap_or_default();
+                        let bad = unexplained[0].clone();
                         let (x, y) = (a.get(&bad).cloned().unwrap_or_default(), b.get(&bad).cloned().unwrap_or_default());
                         let how = if y.len() < x.len() { "fewer" } else if y.len() > x.len() { "more" } else { "different-or-reordered" };
                         let st = p.streams.iter().find(|s| s.name == bad);
